@@ -521,6 +521,25 @@ def run(ctx):
             got = f"raises {e.exc_name}"
         r6.check(got == want, f"ErrorCleaner.odk_validate[{src!r}]", f"-> {want!r}", ov_.loc(), why_fail=f"got {got!r}")
     rules.append(r6)
+    # the validator's output is decoded whatever bytes it contains (a verdict must never be lost to a codec error): the
+    # decoder is evaluated on valid UTF-8, on Latin-1 text and on arbitrary bytes; any locale lookup answers UTF-8 (the
+    # common server setting, under which a second UTF-8 attempt fails again)
+    r7 = Rule("C18", "C18.R7", "validator output is decoded for every byte sequence", floor=4,
+              necessary="an undecodable stderr raises before the exit status is looked at: the rejection (or acceptance) is replaced by a codec error")
+    ds = ctx.func("pyxform.validators.util:decode_stream", "C18.R7")
+    for desc, raw in (("ascii", b"error: bad form"), ("utf-8", "r\u00e9ponse invalide \u2014 \u4e2d".encode("utf-8")), ("latin-1 accents", "r\u00e9ponse \u00e0 corriger".encode("latin-1")),
+                      ("arbitrary bytes", bytes([0xff, 0xfe, 0x80, 0x81, 0x9d, 0x41])), ("cp1252-only bytes", bytes([0x93, 0x94, 0x85])), ("empty", b"")):
+        itd = ctx.interp("C18.R7", hooks={"ext:locale.getpreferredencoding": lambda i, a, k, n: "UTF-8", "ext:locale.getencoding": lambda i, a, k, n: "UTF-8",
+                                          "ext:sys.getdefaultencoding": lambda i, a, k, n: "utf-8"})
+        itd.reset([])
+        try:
+            got = itd.call_function(ds, [raw], {}, None, ds.node)
+            okd = isinstance(got, str)
+            why = repr(got)[:80]
+        except Raised as e:
+            okd, why = False, f"raises {e.exc_name}"
+        r7.check(okd, f"decode_stream[{desc}]", "returns text", ds.loc(), why_fail=why)
+    rules.append(r7)
     return rules
 
 
